@@ -1221,8 +1221,15 @@ class Forest:
                 c2["nested_in"] = outer["no"]
                 c2["may_cancel"] = True  # whatever ends the outer call early ends this one too
                 if kind == "exec_sync":
-                    ctx = contextvars.copy_context()
-                    ctx.run(self.run_sync, c2)
+                    # faults armed for the OUTER call's worker thread are not the nested call's
+                    w = self.world
+                    saved_w = (getattr(w, "small_stack", None), getattr(w, "crash", None))
+                    w.small_stack = w.crash = None
+                    try:
+                        ctx = contextvars.copy_context()
+                        ctx.run(self.run_sync, c2)
+                    finally:
+                        w.small_stack, w.crash = saved_w
                 else:
                     loop = asyncio.get_running_loop()
                     t = loop.create_task(self.one(c2), name=f"call-{c2['no']}")
@@ -1234,10 +1241,17 @@ class Forest:
                     try:
                         await asyncio.shield(t)
                     except asyncio.CancelledError:
-                        # the outer call is being cancelled (`one` records and swallows what
-                        # hits the nested call, so the request must be passed on by hand)
-                        t.cancel()
-                        raise
+                        cur = asyncio.current_task()
+                        if t.cancelled() and cur is not None and cur.cancelling() == 0:
+                            # the simulator cancelled the NESTED call before its first step;
+                            # nobody asked the outer call to stop
+                            if c2["res"] is None:
+                                c2["res"] = ("cancelled",)
+                        else:
+                            # the outer call is being cancelled (`one` records and swallows
+                            # what hits the nested call: the request is passed on by hand)
+                            t.cancel()
+                            raise
                 self.stat("calls_nested_in_an_executor")
                 self.check_call(c2)
                 c2["checked"] = True
